@@ -20,7 +20,7 @@ THEOREMS = [
     "C11.exitT_scale", "C11.edgeDot_from_distances", "C11.angle_invariant_of_isometry", "C11.rigid_preserves_angles", "C11.angle_data_scale",
     "C11.generated_lmgeo_under_map", "C11.generated_bif_angles_under_map", "C11.generated_nodefeat_under_map", "C11.generated_sholl_under_map",
     "C11.generated_rigid_invariance", "C11.generated_scale", "C11.generated_branch_angle_scale", "C11.generated_rigid_source_matrices", "C11.generated_counts_coordinate_free",
-    "C11.generated_counts_renumbered", "C11.generated_tree_length_renumbered", "C11.moved_mapCols", "Invar.rigid_rowRel", "Invar.scale_rowRel", "Invar.Homog.scale", "Invar.path_length_general",
+    "C11.generated_counts_renumbered", "C11.generated_n_stems_renumbered", "C11.generated_tree_length_renumbered", "C11.moved_mapCols", "Invar.rigid_rowRel", "Invar.scale_rowRel", "Invar.Homog.scale", "Invar.path_length_general",
 ]
 TRUSTED = ["the feature models of C10 (functions of parent relation + distances only), C12's generated matrices (isometry), C13's generated volume forms (homogeneous of degree 3)"]
 ASSUMPTIONS = ["floating-point rounding is outside the theorems (the property itself says 'beyond floating-point rounding'): metamorphic comparisons use relative tolerance 2e-4",
